@@ -508,3 +508,16 @@ Lemma refuted_overwrite_proof : exists s,
   run (init 2) witness_overwrite = Some s /\ all_gone (st_vars s) = true /\
   status (st_led s) = LErr ConstructOverLive (slot 0) /\ n_ctor (st_led s) = 3 /\ n_dtor (st_led s) = 2.
 Proof. eexists. split; [vm_compute; reflexivity|]. repeat split; vm_compute; reflexivity. Qed.
+
+(* the property at full strength is false *)
+Definition full_statement : Prop :=
+  forall nv ops s, run (init nv) ops = Some s ->
+    (exists sp, spec_run (repeat None nv) ops = Some sp /\ vars_rel (st_vars s) sp = true) /\
+    ok (st_led s) /\
+    (all_gone (st_vars s) = true -> balanced (st_led s) /\ n_ctor (st_led s) = n_dtor (st_led s)).
+
+Lemma full_statement_false_proof : ~ full_statement.
+Proof.
+  intros F. destruct refuted_proof as [s [R [G [_ [_ [_ [_ NB]]]]]]].
+  destruct (F _ _ _ R) as [_ [_ B]]. apply NB. apply B. exact G.
+Qed.
